@@ -5,6 +5,13 @@
 // gettimeofday itself (the definition in the executable takes precedence over libc's), so the
 // instant is either scripted by the operation or the real CLOCK_REALTIME value, and in both
 // cases recorded and reported as the environment line `< now <us>`.
+//
+// Thread kinds (`line` / `macro` <where>): main | thread (muduo::Thread) | fork (the child of a fork(): its tid must be
+// the child's) | raw0 | raw1 (a thread made with pthread_create inside a forked child - an abort, e.g. of an assert
+// in a build without NDEBUG, is then an observable event `aborted` instead of the end of the driver; raw0: the log
+// statement is that thread's FIRST muduo call, raw1: the thread called CurrentThread::tid() before).
+// `< tid N` is gettid() read by the harness on the emitting thread (not through muduo), `< ptid N` the driver's main
+// thread, `< asserts 0|1` whether this executable was built with NDEBUG.
 #include "muduo/base/LogStream.h"
 #include "muduo/base/Logging.h"
 #include "muduo/base/TimeZone.h"
